@@ -408,7 +408,8 @@ func (s *sm) verify(r *recv, res recvRes, exp int) {
 }
 
 // settle: every pending receive the model calls completable must complete within the bound
-// (no lost wake-up) with the modelled result; every other pending receive must still be pending.
+// (no lost wake-up) with the modelled result; every other pending receive must still be pending
+// (checked when it is cancelled, closed, completed or at the end of the history).
 func (s *sm) settle() {
 	for _, r := range s.recvs {
 		if r.state != rPending {
@@ -416,11 +417,10 @@ func (s *sm) settle() {
 		}
 		exp := s.expect(r)
 		if exp == expNone {
-			select {
-			case res := <-r.res:
-				s.failf("%s returned (%s) although not every requested sender's message for this exchange has arrived", r, showRes(res))
-			default:
-			}
+			// Must still be pending. Not polled here: whether a wrong early return has already
+			// arrived would depend on timing and make the failure irreproducible; it is found
+			// at the next deterministic point (completion, cancel, close or the final phase),
+			// where the stale result is compared with what the model expects then.
 			continue
 		}
 		res, ok := s.await(r)
